@@ -336,6 +336,14 @@ func (p *Peer) SetPolicy(f func(d Dgram, nth int) []Answer) {
 	p.mu.Unlock()
 }
 
+// ResetRequests forgets the agent-originated requests seen so far (a new incarnation of the agent starts its
+// sequence numbers again).
+func (p *Peer) ResetRequests() {
+	p.mu.Lock()
+	p.ReqSeen, p.seqCnt = nil, nil
+	p.mu.Unlock()
+}
+
 // Requests returns a copy of the agent-originated requests seen under a policy.
 func (p *Peer) Requests() []Dgram {
 	p.mu.Lock()
